@@ -83,6 +83,27 @@ MayVary(n) ==
       [] n.k = "Sort" -> MayVary(n.e) \/ \E i \in 1..Len(n.terms) : MayVary(n.terms[i].e)
       [] OTHER -> FALSE
 
+\* C20: names registered anywhere in this history; a wrong outcome of a program that mentions one of
+\* them is a registry-visibility failure (the specification's outcome is computed from expr[e].reg)
+RegNamesNow == {greg[i][1] : i \in 1..Len(greg)} \cup UNION {{expr[e].reg[i][1] : i \in 1..Len(expr[e].reg)} : e \in {x \in ExprIds : expr[x] # None}}
+                \cup UNION {{gsnap[e][i][1] : i \in 1..Len(gsnap[e])} : e \in ExprIds}
+RECURSIVE Mentions(_, _)
+MentionsSeq(ns, N) == \E i \in 1..Len(ns) : Mentions(ns[i], N)
+Mentions(n, N) ==
+    CASE n.k = "Variable" -> n.nm \in N
+      [] n.k = "Path" -> MentionsSeq(n.steps, N)
+      [] n.k \in {"Negation"} -> Mentions(n.e, N)
+      [] n.k \in {"NumOp", "CmpOp", "BoolOp", "Concat", "Range", "Apply"} -> Mentions(n.l, N) \/ Mentions(n.r, N)
+      [] n.k = "Array" -> MentionsSeq(n.items, N)
+      [] n.k = "Block" -> MentionsSeq(n.exprs, N)
+      [] n.k \in {"Lambda", "TypedLambda"} -> Mentions(n.body, N)
+      [] n.k \in {"Partial", "Call"} -> Mentions(n.fn, N) \/ MentionsSeq(n.args, N)
+      [] n.k = "Predicate" -> Mentions(n.e, N) \/ MentionsSeq(n.filters, N)
+      [] n.k = "Cond" -> Mentions(n.c, N) \/ Mentions(n.th, N) \/ (n.el.k # "None" /\ Mentions(n.el, N))
+      [] n.k = "Assign" -> Mentions(n.e, N)
+      [] n.k \in {"Object", "Group"} -> \E i \in 1..Len(n.pairs) : Mentions(n.pairs[i][1], N) \/ Mentions(n.pairs[i][2], N)
+      [] OTHER -> FALSE
+
 \* an earlier Eval of the same expression on an equal input with equal bindings (C05 Repeatable)
 Earlier(e, inp, reg) == {i \in 1..Len(hist) : hist[i].e = e /\ hist[i].ast = expr[e].ast /\ hist[i].inp = inp /\ hist[i].reg = reg}
 
@@ -98,7 +119,8 @@ TEval ==
            f4 == IF ~Ev.str_same THEN ";string-changed" ELSE ""
            prev == Earlier(e, heap[Ev.d], expr[e].reg)
            f5 == IF prev # {} /\ ~MayVary(expr[e].ast) /\ (\E i \in prev : hist[i].out # Ev.out) THEN ";not-repeatable" ELSE ""
-           all == v \o f0 \o f1 \o f3 \o f4 \o f5
+           f6 == IF v = "no" /\ Mentions(expr[e].ast, RegNamesNow) THEN ";registry-visibility" ELSE ""
+           all == v \o f0 \o f1 \o f3 \o f4 \o f5 \o f6
        IN  /\ (IF all = "ok" THEN TRUE ELSE Report(Ev.id, all))
            \* the specification's step: nothing but the observation changes
            /\ hist' = Append(hist, [e |-> e, ast |-> expr[e].ast, reg |-> expr[e].reg, inp |-> heap[Ev.d], out |-> Ev.out])
